@@ -55,7 +55,7 @@ CHECKS = {
  "C06": dict(cat="fault_enumeration", ref="DESIGN.md §4 C06",
    text="Fault enumeration on the implementation: scenario call trees with Aspects bound everywhere x 1-2 Aspects x answer vectors over {burn 0/1/100/all, out of gas, revert, other failure, provider failure} with <= k deviations; for every call the gas before the callee's first instruction, the gas the caller gets back (computed from the caller's own step gas around the call), the recorded leftovers and the Aspect exit events are checked against what the join points left; out-of-gas must surface as the identical vm.ErrOutOfGas with nothing returned; a differential run without burns checks conservation.",
    tech="stateless exhaustive enumeration of scenario trees x fault vectors up to a deviation bound, executed on the real EVM + real djpm.runAspect with a scripted stub runner; comparison with a reference interpreter of the scenario language and with the burn-free execution",
-   note="Leftover after non-out-of-gas pre failures and Aspect reverts is not determined by the statement and only bounded by the supplied gas."),
+   note="Leftover after non-out-of-gas pre failures and Aspect reverts is not determined by the statement and only bounded by the supplied gas. Auxiliary: each worker also runs a shard of the real-runtime conformance (build/vcheck-real, no stub): the same scenario executions with hand-assembled WASM Aspects on the real aspect-runtime/wasmtime, judged by the oracles of C04-C08 and C13, which binds the stub's answer table to the runtime it replaces."),
  "C07": dict(cat="model_checking", ref="DESIGN.md §4 C07",
    text="Bounded exhaustive exploration on the implementation: scenario call trees with failures at every position (terminators, refusals, static faults, injected join-point failures) x sequences of 1 and 3 top-level invocations on one EVM, plus self-recursion to the 1024 depth limit; after the last return the call tree is inspected through its public API only: dense indices in entry order, FindCall consistent, one parent with a smaller index that lists the node once in increasing order, ParentOf/ChildrenOf consistent, Root is node 0, cursor nil.",
    tech="stateless exhaustive enumeration of scenario trees x fault vectors x invocation sequences, executed on the real EVM + real djpm.runAspect with a scripted stub runner; comparison with a reference interpreter of the scenario language (node count and parent relation)",
@@ -116,7 +116,7 @@ def main():
         "setup_cmd": "bin/setup.sh",
         "hooks": {
             "guard": "verif",
-            "enable": "go build -tags verif -overlay build/overlay.json (bin/build.sh): the overlay ADDS /repo/vm/zz_verif_export.go (//go:build verif, kept in /verif/overlays) and substitutes the dependency file aspect-core/djpm/run/runner.go by a scripted stub; no file exists under /repo",
+            "enable": "go build -tags verif -overlay build/overlay.json (bin/build.sh): the overlay ADDS /repo/vm/zz_verif_export.go (//go:build verif, kept in /verif/overlays) and substitutes the dependency file aspect-core/djpm/run/runner.go by a scripted stub (not in build/vcheck-real, which links the real runner); build/vcheck-map additionally replaces the Go runtime's map.go by a copy with an iteration-start seam; no file exists under /repo",
             "baseline_off_cmd": "cd /repo && GOFLAGS=-mod=mod GOPROXY=off GOSUMDB=off GOTOOLCHAIN=local go test -json -vet=off -count=1 -timeout 25m ./...",
             "source_commits": [],
             "add_only": True,
